@@ -1006,6 +1006,13 @@ let () = register "c09" (fun line ->
     (* accept fails temporarily a few times; the connection that was waiting is then served *)
     let s = run [LServeBegin; LBindOk; LAcceptTemp; LAcceptTemp; LAcceptTemp; LAccept] in
     report (if int_of_nat s.lconns = 1 then "new=served " else "new=UNSERVED ") (lstep true s LStop)
+  | "drain-after-accept" ->
+    (* Accept has returned the connection: it is an accepted one when the drain arrives; Serve returns when it has ended *)
+    let s = run [LServeBegin; LBindOk; LAccept; LDrain] in
+    let kept = int_of_nat s.lconns = 1 in
+    let refused = (lstep true s LAccept) = s in
+    let s' = run [LServeBegin; LBindOk; LAccept; LDrain; LConnEnd; LServeExit] in
+    Printf.sprintf "drain=ok established=%s new=%s serve-returned=%b" (if kept then "kept" else "BROKEN") (if refused then "refused" else "SERVED") (s'.phase = PReturned)
   | "drain-then-stop" ->
     let s = run ([LServeBegin; LBindOk] @ accepts @ [LDrain]) in
     let kept = int_of_nat s.lconns = n in
